@@ -407,6 +407,7 @@ def check(ctx, res) -> None:
     _placeholder_keeps_the_depth_rule(ctx, res)
     _line_numbers_are_one_based_rule(ctx, res)
     _typed_offsets_are_transferred_rule(ctx, res)
+    _callee_is_a_function_rule(ctx, res)
     from .common import clamped_offset_rule as _co
 
     _co(ctx, res, "R20.19")
@@ -624,3 +625,69 @@ def _typed_offsets_are_transferred_rule(ctx, res) -> None:
                          "offset behind column indent+4 of that line lies on a LATER line of the repaired code -- in another function, the parameter of that function is shown as the "
                          "definition (and get_doc / get_calltip answer for it)", function=m.qualname)
     res.floor("R20.22", "uses of a typed offset in FixSyntax", n, 1)
+
+
+def _callee_is_a_function_rule(ctx, res) -> None:
+    """R20.23: completion must return, not raise, at every cursor position -- also inside the parentheses of a call whose callee
+    is a class with `__init__ = make_init()` or an object with `__call__ = None`.  In the completion module every
+    `<v>.get_param_names(...)` whose receiver is a local bound (in the function, private steps read in place, or in the
+    private step that returns it) to the result of `.get_object()` -- an inferred object of unknown kind -- stands under
+    `isinstance(<v>, <...Function>)`: only function objects have parameter names."""
+    idx = ctx.idx
+    from . import common
+    unit = idx.units["rope.contrib.codeassist"]
+    fns = [f for f in idx.functions.values() if f.unit is unit]
+
+    def yields_inferred(value: ast.AST, depth: int = 0) -> bool:
+        for c in ast.walk(value):
+            if not isinstance(c, ast.Call):
+                continue
+            if call_name(c) == "get_object":
+                return True
+            if depth < 2:
+                for g in fns:
+                    if g.name == call_name(c) and g.name.startswith("_") and any(call_name(x) == "get_object" for x in calls_in(g.node)):
+                        return True
+        return False
+
+    n = 0
+    for f in fns:
+        if not any(call_name(c) == "get_param_names" for c in calls_in(f.node)):
+            continue
+        node = common.inlined(idx, f)
+        cfg = CFG(node)
+        k = 0
+        for c in calls_in(node):
+            if not (call_name(c) == "get_param_names" and isinstance(c.func, ast.Attribute) and isinstance(c.func.value, ast.Name)):
+                continue
+            v = c.func.value.id
+            if v == "self" or not any(isinstance(a, ast.Assign) and any(isinstance(t, ast.Name) and t.id == v for t in a.targets) and yields_inferred(a.value)
+                                      for a in walk_local(node)):
+                continue
+            k += 1
+            n += 1
+            at = cfg.node_containing(c)
+            ok = bool(at)
+            for nd in at:
+                gs = cfg.guards(nd.id)
+                if not any(pol and isinstance(t, ast.Call) and call_name(t) == "isinstance" and len(t.args) == 2 and isinstance(t.args[0], ast.Name) and t.args[0].id == v
+                           and any(ast.unparse(x).endswith("Function") for x in ([t.args[1]] if not isinstance(t.args[1], ast.Tuple) else t.args[1].elts)) for t, pol in gs):
+                    ok = False
+            if not ok:
+                # the test may live in the private step that hands the object back: every return of it that is not None stands under the test there
+                binds = [a.value for a in walk_local(node) if isinstance(a, ast.Assign) and any(isinstance(t, ast.Name) and t.id == v for t in a.targets)]
+                steps = [g for b in binds if isinstance(b, ast.Call) for g in fns if g.name == call_name(b) and g.name.startswith("_")]
+                if steps and len(steps) == len(binds):
+                    ok = True
+                    for g in steps:
+                        gc = CFG(g.node)
+                        for r in walk_local(g.node):
+                            if isinstance(r, ast.Return) and r.value is not None and not (isinstance(r.value, ast.Constant) and r.value.value is None):
+                                held = [t for nd in gc.node_containing(r.value) for t, pol in gc.guards(nd.id) if pol and isinstance(t, ast.Call) and call_name(t) == "isinstance"
+                                        and len(t.args) == 2 and ast.unparse(t.args[0]) == ast.unparse(r.value) and "Function" in ast.unparse(t.args[1])]
+                                ok = ok and bool(held)
+            res.add("R20.23", f"{f.qualname.split('.', 2)[-1]}|parameter-names-of-a-function-only#{k}", ok, f"{unit.rel}:{c.lineno}",
+                    f"`{v}` comes from get_object() and its parameter names are read only under isinstance({v}, <function class>)" if ok else
+                    f"`{v}.get_param_names(...)` is reached without a test that `{v}` is a function object: `{v}` is whatever the name is bound to (`__init__ = make_init()`, "
+                    "`__call__ = None`), and completion inside the parentheses of such a call raises AttributeError instead of returning proposals", function=f.qualname)
+    res.floor("R20.23", "parameter names read from an inferred object", n, 1)
